@@ -291,10 +291,85 @@ def main():
     for inp in mutations(rng, cbase, 80 * N, long_tokens=[b"9" * 30, b"/" * 200, b"x" * 500]) + [b"foop/" + b"9" * 100 + b"\x00", b"a" * 20000, b"todo/18446744073709551617\x00"]:
         run_prog(S, [rb.path("qmail-clean")], inp, cwd=home)
 
+    # qmail-popup: long and hostile lines before authentication
+    S = Surface(ck, "qmail-popup", fails, {0, 1})
+    pstub = os.path.join(vlib.scratch(), "pw.sh"); open(pstub, "w").write("#!/bin/sh\ncat <&3 >/dev/null\nexit 1\n"); os.chmod(pstub, 0o755)
+    pps = b"USER joe\r\nNOOP\r\nPASS secret word\r\n"
+    for inp in mutations(rng, pps, 60 * N, long_tokens=[b"u" * 5000, b" " * 3000, b"\x00" * 50]) + [b"APOP " + b"a" * 70000 + b" b\r\n", b"USER " + b"x" * 200000 + b"\r\nPASS y\r\n", b"APOP a " + b"d" * 100000 + b"\r\n", b"\r\n" * 5000]:
+        run_prog(S, [rb.path("qmail-popup"), "h" * rng.choice([1, 60, 5000]) + ".example", pstub], inp)
+    # qmail-rspawn / spawn.c: hostile command streams (delivery number, message id, sender, recipient)
+    S = Surface(ck, "qmail-rspawn", fails, {0, 111})
+    rstub = os.path.join(home, "bin", "qmail-remote.stub")
+    cmdb = b"\x00" + b"0/23\x00s@x.example\x00r@y.example\x00" + b"\x01" + b"9/99\x00\x00r2@y\x00"
+    spin = mutations(rng, cmdb, 80 * N, long_tokens=[b"9" * 300, b"/" * 200, b"a" * 5000]) + [b"\x05" + b"1" * 200000 + b"\x00s\x00r@h\x00", b"\xff0/1\x00" + b"s" * 100000 + b"\x00r@h\x00", b"\x00" * 3000,
+                                                                                   b"\x01" + b"0/23\x00s\x00" + b"r" * 200000]
+    renv = vlib.shim_env(home); renv.update(SAN_ENV); renv["LD_PRELOAD"] = vlib.SHIM
+    for inp in spin:
+        run_prog(S, [rb.path("qmail-rspawn")], inp, env=renv, cwd=home)
+    # control files and constant databases read by the sanitised qmail-smtpd
+    S = Surface(ck, "control_files", fails, {0, 1, 111})
+    cdir = os.path.join(home, "control")
+    sess2 = b"HELO x\r\nMAIL FROM:<a@b.example>\r\nRCPT TO:<u@deep.sub.example.org>\r\nRCPT TO:<v@[10.1.2.3]>\r\nQUIT\r\n"
+    saved = {}
+    names = ["rcpthosts", "badmailfrom", "databytes", "timeoutsmtpd", "localiphost", "smtpgreeting", "me", "morercpthosts.cdb"]
+    for f in names:
+        pth = os.path.join(cdir, f); saved[f] = open(pth, "rb").read() if os.path.exists(pth) else None
+    goodcdb = None
+    try:
+        open(os.path.join(cdir, "morercpthosts"), "wb").write(b"".join(b"host%d.example\n" % i for i in range(40)) + b".sub.example.org\n")
+        r0 = subprocess.run([rb.path("qmail-newmrh")], env=dict(env0, LD_PRELOAD=""), cwd=home, stdout=subprocess.PIPE, stderr=subprocess.PIPE)
+        goodcdb = open(os.path.join(cdir, "morercpthosts.cdb"), "rb").read() if r0.returncode == 0 else None
+    except OSError: pass
+    variants = [b"", b"\n", b"\x00" * 300, b"x" * 100000, b"a\n" * 20000, b"#c\n \t\n", b"99999999999999999999999\n", b"-5\n", b"@\n@\n", b"h.example" + b" " * 5000 + b"\n", b"\xff\xfe\n", b"line without newline"]
+    for f in names[:-1]:
+        for v in (variants if ck.thorough else rng.sample(variants, 5)):
+            open(os.path.join(cdir, f), "wb").write(v)
+            run_prog(S, [rb.path("qmail-smtpd")], sess2, env=net)
+        pth = os.path.join(cdir, f)
+        if saved[f] is None: os.remove(pth)
+        else: open(pth, "wb").write(saved[f])
+    if goodcdb:
+        open(os.path.join(cdir, "rcpthosts"), "wb").write(b"nothing.example\n")
+        cuts = list(range(0, len(goodcdb), max(1, len(goodcdb) // (120 if ck.thorough else 40))))
+        for c in cuts:
+            open(os.path.join(cdir, "morercpthosts.cdb"), "wb").write(goodcdb[:c]); run_prog(S, [rb.path("qmail-smtpd")], sess2, env=net)
+        for _ in range(60 * N):
+            b = bytearray(goodcdb); q2 = rng.randrange(len(b)); b[q2:q2 + 4] = bytes(rng.randrange(256) for _ in range(4))
+            open(os.path.join(cdir, "morercpthosts.cdb"), "wb").write(bytes(b)); run_prog(S, [rb.path("qmail-smtpd")], sess2, env=net)
+    for f in ("morercpthosts.cdb", "morercpthosts", "rcpthosts"):
+        pth = os.path.join(cdir, f)
+        if os.path.exists(pth): os.remove(pth)
+    # .qmail files read by qmail-local -n
+    S = Surface(ck, "dot_qmail", fails, {0, 100, 111})
+    uh = os.path.join(vlib.scratch(), "uhome"); shutil.rmtree(uh, ignore_errors=True); os.makedirs(uh); os.chmod(uh, 0o755)
+    dq = b"# comment\n./Maildir/\n/var/mbox\n|prog arg\n&fwd@x.example\nbare@y.example\n+list\n"
+    for body in mutations(rng, dq, 80 * N, long_tokens=[b"&" + b"a" * 5000, b"|" + b"x" * 100000, b"\n" * 3000, b"/" * 2000]) + [b"&" + b"<" * 50000 + b"\n", b"a" * 300000, b"\x00" * 1000 + b"\n"]:
+        open(os.path.join(uh, ".qmail"), "wb").write(body); os.chmod(os.path.join(uh, ".qmail"), 0o644)
+        run_prog(S, [rb.path("qmail-local"), "-n", "--", "user", uh, "user", "", "", "host.example", "sender@x.example", "./Mailbox"], b"Subject: x\n\nb\n", cwd=uh)
+    # qmail-remote against a hostile server
+    S = Surface(ck, "qmail-remote", fails, {0, 111})
+    import C09
+    srv = C09.Server()
+    open(os.path.join(cdir, "smtproutes"), "w").write(":127.0.0.1:%d\n" % srv.port)
+    hostile = [b"220 " + b"x" * 100000 + b"\r\n", b"220-" * 30000, b"220 ok\r\n250 ok\r\n" + b"250-" + b"y" * 70000 + b"\r\n250 z\r\n", b"\x00" * 9000, b"220 a\r\n250 b\r\n250 c\r\n550 " + b"\xff" * 6000 + b"\r\n",
+               b"2", b"999999999999999999999 x\r\n", b"220 ok\r\n" + b"250 ok\r\n" * 6 + b"354 go\r\n250 " + b"q" * 9000, b"\r\n" * 20000]
+    for _ in range(40 * N):
+        hostile.append(b"".join(rng.choice([b"220 ok\r\n", b"250 ok\r\n", b"354 go\r\n", b"451 t\r\n", b"550-a\r\n550 b\r\n", b"25", b"\n", b"250-" + b"m" * rng.randint(1, 6000) + b"\r\n", b"\x00\xff"]) for _ in range(rng.randint(1, 9))))
+    msgf = os.path.join(vlib.scratch(), "c20.msg"); open(msgf, "wb").write(b"Subject: t\n\n.dot\nline\n" + b"x" * 3000 + b"\n")
+    for sc in hostile:
+        srv.script = sc
+        ck.evaluated(); ck.count("surface_qmail-remote")
+        try:
+            with open(msgf, "rb") as f0:
+                pr = subprocess.run([rb.path("qmail-remote"), "dest.example", "s@client.example", "r1@dest.example", "\"q r\"@dest.example"], stdin=f0, stdout=subprocess.PIPE, stderr=subprocess.PIPE, env=dict(env0), cwd=home, timeout=60)
+        except subprocess.TimeoutExpired:
+            fails.append(("memory:qmail-remote:hang", dict(kind="input", surface="qmail-remote", server_script_hex=vlib.hx(sc[:20000])), len(sc))); continue
+        S.judge(sc, pr.returncode, pr.stderr, extra=dict(argv=["qmail-remote"], server_script=True))
+    os.remove(os.path.join(cdir, "smtproutes"))
     ck.cov["disagreements_checked"] = len(mism)
     ck.cov["rule"] = ("ASan+UBSan build of the current tree. Function harnesses: token822_parse/unquote/unparse, doheaderfield, quote2, addrmangle, addrparse, smtpd blast(), remote blast(), dns.c with scripted "
                       "responses (valid, every truncation, mutated, rdlength beyond the end, huge counts), del_dochan. Whole programs: qmail-smtpd, qmail-qmtpd (recipient lengths 0..1500 x RELAYCLIENT lengths 0..998, "
-                      "declared lengths to 2^64), qmail-qmqpd, qmail-pop3d, qmail-inject (10^4 nested comments, 10^5 addresses), qmail-clean. Every truncation point of a valid input per surface, seeded mutations, extreme lengths. "
+                      "declared lengths to 2^64), qmail-qmqpd, qmail-pop3d, qmail-inject (10^4 nested comments, 10^5 addresses), qmail-clean, qmail-popup, qmail-rspawn command streams, control files and corrupt/truncated morercpthosts.cdb through qmail-smtpd, .qmail files through qmail-local -n, qmail-remote against a hostile scripted server. Every truncation point of a valid input per surface, seeded mutations, extreme lengths. "
                       "The modelled part (stralloc growth, token822 two-pass sizes, netstring/recipient bounds) is proved; everything else is only executed. non-trivial = every input (all are hostile by construction)")
     ck.cov["proved_vs_executed"] = dict(proved=["stralloc_readyplus/ready/append/catb/copyb index safety and overflow refusal", "quote.c doit size", "token822_parse count pass = fill pass", "QMTP/QMQP netstring length bound and recipient buffer"],
                                         executed_only="all other code reached by the inputs above")
